@@ -4,7 +4,7 @@ package main
 
 import (
 	"fmt"
-
+	"math"
 )
 
 // ---------- value pool with three provenances ----------
@@ -197,6 +197,7 @@ func truthValues() []truthVal {
 		{"FP", HV{Kind: "int", IntKind: "int", I: 5}}, {"FN", HV{Kind: "int", IntKind: "int", I: -5}}, {"FFZ", HV{Kind: "f64", F: 0}},
 		{"FFP", HV{Kind: "f64", F: 0.25}}, {"FFN", HV{Kind: "f64", F: -0.25}}, {"FSE", HV{Kind: "str", S: ""}}, {"FSN", HV{Kind: "str", S: "x"}},
 		{"FSB", HV{Kind: "str", S: " "}}, {"FST", HV{Kind: "str", S: "\t\n"}},
+		{"FNaN", HV{Kind: "f64", F: math.NaN()}}, {"FPInf", HV{Kind: "f64", F: math.Inf(1)}}, {"FNInf", HV{Kind: "f64", F: math.Inf(-1)}}, {"FNZ", HV{Kind: "f64", F: math.Copysign(0, -1)}},
 		{"FAE", HV{Kind: "slice", ElemKind: "int", IntKind: "int"}}, {"FAN", HV{Kind: "slice", ElemKind: "int", IntKind: "int", Els: []HV{{Kind: "int", IntKind: "int", I: 0}}}},
 		{"FHE", HV{Kind: "map", ElemIface: true, KeyKind: "str"}},
 		{"FHN", HV{Kind: "map", ElemIface: true, KeyKind: "str", Entries: [][2]HV{{{Kind: "str", S: "k"}, {Kind: "bool", B: false}}}}},
@@ -228,6 +229,8 @@ func truthObject() HV {
 		{"FHE", true, HV{Kind: "map", ElemIface: true, KeyKind: "str"}},
 		{"FHN", true, HV{Kind: "map", ElemIface: true, KeyKind: "str", Entries: [][2]HV{{{Kind: "str", S: "k"}, {Kind: "bool", B: false}}}}},
 		{"FU", true, HV{Kind: "uint", U: 3}},
+		{"FSB", true, HV{Kind: "str", S: " "}}, {"FST", true, HV{Kind: "str", S: "\t\n"}},
+		{"FNaN", true, HV{Kind: "f64", F: math.NaN()}}, {"FPInf", true, HV{Kind: "f64", F: math.Inf(1)}}, {"FNInf", true, HV{Kind: "f64", F: math.Inf(-1)}}, {"FNZ", true, HV{Kind: "f64", F: math.Copysign(0, -1)}},
 	}}
 }
 
